@@ -17,13 +17,13 @@ TUPLE = lambda k, v: {"t": "tuple", "pairs": [[{"v": k, "q": None}, v]], "trail"
 # declared kind -> [(label, raw AST value, python value for the API path)]
 QSTR = lambda v: {"t": "qstr", "v": v, "q": '"'}
 WRONG = {
-    "number": [("list", LIST([INT(1), INT(2)]), [1, 2]), ("tuple", TUPLE("a", WORD("b")), {"a": "b"}), ("word", WORD("abc"), "abc"), ("empty-string", QSTR(""), ""),
+    "number": [("none", WORD("None"), None), ("list", LIST([INT(1), INT(2)]), [1, 2]), ("tuple", TUPLE("a", WORD("b")), {"a": "b"}), ("word", WORD("abc"), "abc"), ("empty-string", QSTR(""), ""),
                ("empty-list", LIST([]), [])],
-    "list:number": [("scalar", INT(3), 3), ("scalar-zero", INT(0), 0), ("empty-string", QSTR(""), ""), ("tuple", TUPLE("a", INT(1)), {"a": "1"}), ("bad-item", LIST([INT(1), WORD("abc")]), [1, "abc"]),
+    "list:number": [("none", WORD("None"), None), ("none-item", LIST([INT(1), WORD("None")]), [1, None]), ("scalar", INT(3), 3), ("scalar-zero", INT(0), 0), ("empty-string", QSTR(""), ""), ("tuple", TUPLE("a", INT(1)), {"a": "1"}), ("bad-item", LIST([INT(1), WORD("abc")]), [1, "abc"]),
                     ("nested-item", LIST([INT(1), LIST([INT(2)])]), [1, [2]])],
     "list:result": [("scalar-number", INT(3), 3), ("scalar-zero", INT(0), 0), ("tuple", TUPLE("a", WORD("b")), {"a": "b"}), ("number-item", LIST([INT(7)]), [7])],
     "result": [("number", INT(5), 5), ("list", LIST([INT(1)]), [1]), ("float", FLOAT(0.5), 0.5), ("zero", INT(0), 0), ("empty-list", LIST([]), [])],
-    "boolean": [("word", WORD("maybe"), "maybe"), ("decimal", FLOAT(0.5), 0.5), ("list", LIST([INT(1)]), [1]), ("empty-string", QSTR(""), ""), ("empty-list", LIST([]), [])],
+    "boolean": [("none", WORD("None"), None), ("word", WORD("maybe"), "maybe"), ("decimal", FLOAT(0.5), 0.5), ("list", LIST([INT(1)]), [1]), ("empty-string", QSTR(""), ""), ("empty-list", LIST([]), [])],
     "datatype": [("unknown-name", WORD("Complex"), "Complex"), ("number", INT(4), 4), ("list", LIST([WORD("Float")]), ["Float"])],
     "tuple": [("number", INT(4), 4), ("word", WORD("abc"), "abc"), ("list", LIST([INT(1), INT(2)]), [1, 2]), ("zero", INT(0), 0), ("zero-float", FLOAT(0.0), 0.0),
               ("empty-string", QSTR(""), ""), ("nested-list", LIST([LIST([WORD("a"), WORD("b")])]), [["a", "b"]]), ("word-list", LIST([WORD("x")]), ["x"])],
@@ -72,6 +72,7 @@ def applicable(model, kinds, req):
                 sites.append(("wrong-kind", i, p, label))
             if k in ("result", "list:result"):
                 sites.append(("missing-result", i, p, None))
+                sites.append(("missing-result", i, p, "blank-padded"))
                 if any(x["cmd"] in ("PrintVars", "EEMSWrite") for x in cmds if x is not c) and c["cmd"] not in ("PrintVars",):
                     sites.append(("non-data-result", i, p, None))
                 if c["cmd"] in arr.FUZZY_INPUT or (c["cmd"] in arr.INPUT_STYLE and c["cmd"] != "Copy"):
@@ -127,15 +128,24 @@ def inject(model, site, rng):
         exp.update(error="ParameterNotValid", where="arg", attrs={}, declared=k)
     elif kind == "missing-result":
         v = c["args"][p]
+        # a name nothing is called - or an existing name with a blank / tab / line break before or after it (written in quotes)
+        real = [x["result"] for x in cmds if x is not c]
+        bad_name = "No_Such_Result"
+        if variant == "blank-padded" and real:
+            bad_name = rng.choice([" %s", "%s ", "%s\t", "\t%s", " %s ", "%s\n"]) % rng.choice(real)
         if isinstance(v, list):
             if not v:
                 return None
             e = rng.randrange(len(v))
-            v[e] = "No_Such_Result"
+            v[e] = bad_name
             exp.update(elem=e)
+            if variant == "blank-padded":
+                c.setdefault("raw_ast", {})[p] = LIST([QSTR(x) if x == bad_name else WORD(x) for x in v])
         else:
-            c["args"][p] = "No_Such_Result"
-        exp.update(error="ResultDoesNotExist", where="arg", attrs={"result": "No_Such_Result"})
+            c["args"][p] = bad_name
+            if variant == "blank-padded":
+                c.setdefault("raw_ast", {})[p] = QSTR(bad_name)
+        exp.update(error="ResultDoesNotExist", where="arg", attrs={"result": bad_name})
     elif kind == "non-data-result":
         sinks = [x["result"] for x in cmds if x["cmd"] in ("PrintVars", "EEMSWrite") and x is not c
                  and not _depends_on(m, x["result"], c["result"])]
